@@ -514,6 +514,10 @@ mod async_io {
         ///
         /// We need this because the lifetime of others is usually shorter than self.
         pub async fn async_commit(&mut self, other: Option<&Writer<'a, S>>) -> io::Result<usize> {
+            if !self.buffered {
+                return Ok(0);
+            }
+
             let o = match other {
                 Some(Writer::FuseDev(w)) => w.buf.as_slice(),
                 _ => &[],
